@@ -132,6 +132,11 @@ def wide_frame(rows, K, coding, index_kind, rng):
         d['Y%d' % k] = [np.nan if r[k][2] is None else float(r[k][2]) for r in rows]
     df = pd.DataFrame(d)
     n = len(df)
+    if n % 3 == 1:          # the order of the columns in the caller's frame is not the chronological order (latest visit first)
+        df = df[list(df.columns[::-1])]
+    elif n % 3 == 2 and K > 1:
+        cols = list(df.columns)
+        df = df[cols[3:6] + cols[0:3] + cols[6:]]
     if index_kind == 'shift':
         df.index = range(1000, 1000 + n)
     elif index_kind == 'shift_small':
